@@ -25,6 +25,7 @@ META = {
     "not_decided": "arithmetic on positions (new_index - 1 after removing the old element) and that the buffer is sorted at all times",
 }
 META["explanation"] += ' R11.4 also requires the tag shift to accompany every structural change of the sorted buffer on every path of the arm (no fast path that inserts and returns before the shift).'
+META["explanation"] += ' R11.8 inside a loop that inserts into the sorted buffer, a searched position is not compared with a length of the buffer read before the loop.'
 
 STRUCT = {"append", "clear", "push_front", "push_back", "pop_front", "pop_back", "insert", "set", "remove", "truncate", "retain", "split_off", "slice", "extend"}
 TRANSLATOR = "vector::sort::handle_diff_and_update_buffered_vector"
